@@ -340,6 +340,6 @@ pub fn c17(tier: Tier) -> i32 {
         }
     }
     crate::props::run_hist_runs(&mut report, "C17", &runs);
-    report.cov("oracle", "every state of the history exploration (built or with pending updates, duplicated under a second index number) is rewritten into the v0.4 layout by an independent transformation (old metric name angular and cosine), then cosine_from_0_4_to_0_5 is run between two environments (target pre-filled with a stale key) and inside one environment: the output must equal the current-layout dump minus version records, key for key and byte for byte; it opens iff no update was pending (else NeedBuild / MissingMetadata) and passes upstream's validity walk; on built states from_0_5_to_0_6 must add exactly one version record (crate version, three u32 BE) per index with metadata and change nothing else");
+    report.cov("oracle", "every state of the history exploration (built or with pending updates, duplicated under a neighbouring index number and under indexes 0 and 65535) is rewritten into the v0.4 layout by an independent transformation (old metric name angular and cosine), then cosine_from_0_4_to_0_5 is run between two environments (target pre-filled with a stale key) and inside one environment: the output must equal the current-layout dump minus version records, key for key and byte for byte; it opens iff no update was pending (else NeedBuild / MissingMetadata) and passes upstream's validity walk; on built states from_0_5_to_0_6 must add exactly one version record (crate version, three u32 BE) per index with metadata and change nothing else");
     report.finish()
 }
